@@ -189,7 +189,9 @@ def skipNamePrefix : Nat → LexM Bool
 consumes the NamePath and returns the (possibly reset) `startOffset`, `none` = `return nil, failed` -/
 def parseNamePath (next startOffset : Nat) : LexM (Option Nat) := do
   if next = 0x00 then
-    return some (← offset)
+    -- Go: a lone NullName resets startOffset to Offset() (= startOffset+1); after a prefix nullLen = 1
+    -- is subtracted instead: either way `len = Offset() - (startOffset + 1)`
+    return some (startOffset + 1)
   else if next = 0x2e then
     let endOffset := u32 ((← offset) + amlNameLen * 2)
     if endOffset > (← pkgEnd) then return none
